@@ -459,6 +459,31 @@ def factory1(ctx: Ctx, chk) -> None:
             raise AnalysisError(f"FACTORY-1: expected one call to {opener} in {f.fq}, found {len(calls)}")
         call = calls[0]
         got = {kw.arg: cnf.canon(kw.value) for kw in call.keywords if kw.arg}
+        # `**self._settings()` / `**settings`: a parameter object built by a method of the transport that returns a
+        # dict display (or a local bound once to one)
+        for kw in [k_ for k_ in call.keywords if k_.arg is None]:
+            src = kw.value
+            if isinstance(src, ast.Name):
+                la_ = ctx.I.local_assigns(f).get(src.id) or []
+                src = la_[0] if len(la_) == 1 and isinstance(la_[0], ast.expr) else src
+            disp = None
+            if isinstance(src, ast.Dict):
+                disp = (src, cnf)
+            elif isinstance(src, ast.Call) and isinstance(src.func, ast.Attribute) and norm(src.func.value) == "self" and not src.args and not src.keywords:
+                hm = c.find_method(src.func.attr)
+                if hm is not None:
+                    rs = [r_.value for r_ in ctx.own_nodes(hm) if isinstance(r_, ast.Return) and r_.value is not None]
+                    if len(rs) == 1:
+                        rv = rs[0]
+                        if isinstance(rv, ast.Name):
+                            lh = ctx.I.local_assigns(hm).get(rv.id) or []
+                            rv = lh[0] if len(lh) == 1 and isinstance(lh[0], ast.expr) else rv
+                        if isinstance(rv, ast.Dict):
+                            disp = (rv, Canon(ctx.I, hm, ""))
+            if disp is None or any(not (isinstance(k_, ast.Constant) and isinstance(k_.value, str)) for k_ in disp[0].keys):
+                raise AnalysisError(f"FACTORY-1: cannot tell which keyword arguments `**{norm(kw.value)[:40]}` passes in {f.fq}")
+            for k_, v_ in zip(disp[0].keys, disp[0].values):
+                got.setdefault(k_.value, disp[1].canon(v_))
         pos = [cnf.canon(a) for a in call.args]
         names = list(want)
         for i, a in enumerate(pos):
